@@ -205,6 +205,11 @@ def fresh_of_type(st, name, ty, inputs=None):
         v = SFunc(target=t[1], name=name)
     elif k == "obj":
         v = SObj(name)
+    elif k == "dict":
+        v = {kk: fresh_of_type(st, "%s[%s]" % (name, kk), vv, None) for kk, vv in t[1].items()}
+        if inputs is not None:
+            inputs.append((name, t, v))
+        return v
     elif k == "ds":
         from .lazy import SDs, SData
         spec = t[1]
@@ -213,6 +218,10 @@ def fresh_of_type(st, name, ty, inputs=None):
         attrs = {an: fresh_of_type(st, "%s.attrs[%s]" % (name, an), at, None) for an, at in spec.get("attrs", {}).items()}
         sizes = {}
         for dn, ref in spec.get("sizes", {}).items():
+            if ref == "int":
+                sizes[dn] = fresh_int("%s.sizes[%s]" % (name, dn))
+                st.assume(sizes[dn] >= 0)
+                continue
             vn, ax = ref.rsplit(".", 1)
             src = variables.get(vn) or coords.get(vn)
             sizes[dn] = src.arr.shape[int(ax)]
